@@ -4,7 +4,7 @@ import importlib
 import vlib
 
 # families that provide run_fault(ctx, exe, tier, seed) -> (issues, stats)
-FAMILIES = ["propdoc"]
+FAMILIES = ["propdoc", "faultx"]
 
 
 def body(c):
